@@ -26,9 +26,9 @@ fn progs() -> &'static Vec<Prog> {
 }
 
 #[derive(Clone, Copy, Debug, PartialEq, Eq)]
-enum Op { StepIn, StepOver, StepOut, RunLimit(u64), Run, RunWhileR0Ne2, BpPc(bool), BpReg(bool), BpMem(bool), Arm(u64), SetCount(u64) }
-const OPS: [Op; 21] = [Op::StepIn, Op::StepOver, Op::StepOut, Op::RunLimit(0), Op::RunLimit(1), Op::RunLimit(2), Op::RunLimit(5), Op::Run, Op::RunWhileR0Ne2,
-    Op::BpPc(true), Op::BpPc(false), Op::BpReg(true), Op::BpReg(false), Op::BpMem(true), Op::BpMem(false), Op::Arm(0), Op::Arm(1), Op::Arm(3), Op::RunLimit(u64::MAX), Op::SetCount(u64::MAX - 1), Op::SetCount(0)];
+enum Op { StepIn, StepOver, StepOut, RunLimit(u64), Run, RunWhileR0Ne2, BpPc(bool), BpReg(bool), BpMem(bool), Arm(u64), SetCount(u64), Raise(u64) }
+const OPS: [Op; 23] = [Op::StepIn, Op::StepOver, Op::StepOut, Op::RunLimit(0), Op::RunLimit(1), Op::RunLimit(2), Op::RunLimit(5), Op::Run, Op::RunWhileR0Ne2,
+    Op::BpPc(true), Op::BpPc(false), Op::BpReg(true), Op::BpReg(false), Op::BpMem(true), Op::BpMem(false), Op::Arm(0), Op::Arm(1), Op::Arm(3), Op::RunLimit(u64::MAX), Op::SetCount(u64::MAX - 1), Op::SetCount(0), Op::Raise(1), Op::Raise(3)];
 
 #[derive(Clone, Copy, Debug, PartialEq, Eq)]
 enum Pause { Halt, McrOff, Breakpoint, Tripwire, Unsuccessful }
@@ -43,7 +43,9 @@ fn side(p: &Prog) -> Side {
     let disp = BufferedDisplay::default();
     sim.device_handler.set_display(disp.clone());
     sim.mmap_internal(SSP_PORT, InternalRegister::SavedSP).unwrap();
-    let st = Arc::new(Mutex::new(IntState { mcr: Some(sim.mcr().clone()), ..Default::default() }));
+    let st = Arc::new(Mutex::new(IntState { mcr: Some(sim.mcr().clone()), edge: true, ..Default::default() }));
+    // interrupt service routine for the device's vector x90: ADD R3,R3,#1 ; RTI
+    sim.mem[0x0190].set(0x1F00); sim.mem[0x1F00].set(0x16E1); sim.mem[0x1F01].set(0x8000);
     sim.device_handler.add_device(IntSource { vect: 0x90, prio: 1, state: st.clone() }, &[]).ok().unwrap();
     Side { sim, dev: st, disp }
 }
@@ -96,7 +98,9 @@ fn apply(w: &mut World, op: Op) -> Result<(), (String, String)> {
         Op::BpReg(on) => { let b = Breakpoint::Reg { reg: r0, value: Comparator::Eq(2) }; if on { w.a.sim.breakpoints.insert(b); } else { w.a.sim.breakpoints.remove(&b); } w.bps[1] = on; (Ok(()), Ok(())) }
         Op::BpMem(on) => { let b = Breakpoint::Mem { addr: p.m, value: Comparator::Ne(0) }; if on { w.a.sim.breakpoints.insert(b); } else { w.a.sim.breakpoints.remove(&b); } w.bps[2] = on; (Ok(()), Ok(())) }
         Op::SetCount(c) => { w.a.sim.instructions_run = c; w.twin.sim.instructions_run = c; (Ok(()), Ok(())) }
-        Op::Arm(j) => { for s in [&w.a, &w.twin] { let mut st = s.dev.lock().unwrap(); st.clear_mcr_at = Some(st.poll + j); } (Ok(()), Ok(())) }
+        // the device requests a (priority-1, edge-triggered) interrupt j polls from now: steps that only dispatch an interrupt execute no instruction
+        Op::Raise(j) => { for s in [&w.a, &w.twin] { let mut st = s.dev.lock().unwrap_or_else(|e| e.into_inner()); let at = st.poll + j; st.raise_at.push(at); } (Ok(()), Ok(())) }
+        Op::Arm(j) => { for s in [&w.a, &w.twin] { let mut st = s.dev.lock().unwrap_or_else(|e| e.into_inner()); st.clear_mcr_at = Some(st.poll + j); } (Ok(()), Ok(())) }
     };
     if let Err(e) = &exp { if e.starts_with("machinery") { return Err(("machinery:reference".into(), e.clone())); } }
     if got != exp { return Err((format!("result:{}", opname(op)), format!("{what}: returned {got:?}, repeated single steps with the documented stop rule give {exp:?}"))); }
@@ -109,14 +113,14 @@ fn apply(w: &mut World, op: Op) -> Result<(), (String, String)> {
     let (sa, sb) = (ssp(&mut w.a.sim), ssp(&mut w.twin.sim)); if sa != sb { return Err((format!("state:{}", opname(op)), format!("{what}: saved SP x{sa:04X} vs x{sb:04X}"))); }
     for a in (0x3000..0x3030u16).chain(0xFCF0..0xFD01).chain(0x2FF0..0x3000) { if w.a.sim.mem[a] != w.twin.sim.mem[a] { return Err((format!("state:{}", opname(op)), format!("{what}: mem[x{a:04X}] {:?} vs {:?}", w.a.sim.mem[a], w.twin.sim.mem[a]))); } }
     if w.a.sim.frame_stack.len() != w.twin.sim.frame_stack.len() { return Err((format!("state:{}", opname(op)), format!("{what}: frame depth {} vs {}", w.a.sim.frame_stack.len(), w.twin.sim.frame_stack.len()))); }
-    if *w.a.disp.get_buffer().read().unwrap() != *w.twin.disp.get_buffer().read().unwrap() { return Err((format!("state:{}", opname(op)), format!("{what}: output differs"))); }
+    if *w.a.disp.get_buffer().read().unwrap_or_else(|e| e.into_inner()) != *w.twin.disp.get_buffer().read().unwrap_or_else(|e| e.into_inner()) { return Err((format!("state:{}", opname(op)), format!("{what}: output differs"))); }
     // ---- pause status (only run-style calls define it)
     let (eh, eb) = (matches!(w.pause, Pause::Halt | Pause::McrOff), w.pause == Pause::Breakpoint);
     if w.a.sim.hit_halt() != eh || w.a.sim.hit_breakpoint() != eb { return Err((format!("pause-status:{}", opname(op)), format!("{what}: hit_halt={} hit_breakpoint={}, expected pause reason {:?}", w.a.sim.hit_halt(), w.a.sim.hit_breakpoint(), w.pause))); }
     if w.a.sim.mcr().load(Ordering::Relaxed) != w.twin.sim.mcr().load(Ordering::Relaxed) { return Err((format!("mcr:{}", opname(op)), format!("{what}: MCR {} vs {}", w.a.sim.mcr().load(Ordering::Relaxed), w.twin.sim.mcr().load(Ordering::Relaxed)))); }
     Ok(())
 }
-fn opname(o: Op) -> &'static str { match o { Op::StepIn => "step_in", Op::StepOver => "step_over", Op::StepOut => "step_out", Op::RunLimit(_) => "run_with_limit", Op::Run => "run", Op::RunWhileR0Ne2 => "run_while", Op::Arm(_) => "arm", Op::SetCount(_) => "set_count", _ => "breakpoint" } }
+fn opname(o: Op) -> &'static str { match o { Op::StepIn => "step_in", Op::StepOver => "step_over", Op::StepOut => "step_out", Op::RunLimit(_) => "run_with_limit", Op::Run => "run", Op::RunWhileR0Ne2 => "run_while", Op::Arm(_) => "arm", Op::Raise(_) => "raise", Op::SetCount(_) => "set_count", _ => "breakpoint" } }
 
 fn fingerprint(w: &mut World) -> u64 {
     let s = &w.a.sim;
@@ -125,9 +129,12 @@ fn fingerprint(w: &mut World) -> u64 {
     for a in (0x3000..0x3030u16).chain(0xFCF8..0xFD01).chain(0x2FF8..0x3000) { h = mix(h, s.mem[a].get() as u64); }
     h = mix(h, s.frame_stack.len() << 4 | (s.hit_halt() as u64) << 1 | s.hit_breakpoint() as u64);
     h = mix(h, w.bps.iter().fold(0u64, |x, b| x * 2 + *b as u64) << 8 | w.pause as u64);
-    let st = w.a.dev.lock().unwrap();
+    let st = w.a.dev.lock().unwrap_or_else(|e| e.into_inner());
     h = mix(h, st.clear_mcr_at.map(|c| if c >= st.poll { c - st.poll + 1 } else { 0 }).unwrap_or(99));
-    h = mix(h, w.a.disp.get_buffer().read().unwrap().len() as u64 * 2 + s.mcr().load(Ordering::Relaxed) as u64);
+    // pending interrupt requests, relative to the current poll
+    let mut pend: Vec<u64> = st.raise_at.iter().filter(|r| **r >= st.poll).map(|r| r - st.poll).collect(); pend.sort();
+    for r in pend { h = mix(h, r + 1000); }
+    h = mix(h, w.a.disp.get_buffer().read().unwrap_or_else(|e| e.into_inner()).len() as u64 * 2 + s.mcr().load(Ordering::Relaxed) as u64);
     h
 }
 fn visit(prog: usize, h: &[u16]) -> Visit {
